@@ -22,10 +22,12 @@ pub fn pop_tokens(pop: &PopRaw) -> String {
     pop.iter().map(|(k, rs)| format!("{k}:{}", rs.iter().map(|x| x.to_string()).collect::<Vec<_>>().join(","))).collect::<Vec<_>>().join(" ")
 }
 pub fn mk_score(pop: &PopRaw) -> Vec<IndS> {
-    pop.iter().enumerate().map(|(j, (k, rs))| EcIndividual::new(j, TestResults { results: rs.iter().map(|x| Score(*x)).collect(), total_result: Score(*k) })).collect()
+    let g = genome_of(pop);
+    pop.iter().enumerate().map(|(j, (k, rs))| EcIndividual::new(g(j), TestResults { results: rs.iter().map(|x| Score(*x)).collect(), total_result: Score(*k) })).collect()
 }
 pub fn mk_error(pop: &PopRaw) -> Vec<IndE> {
-    pop.iter().enumerate().map(|(j, (k, rs))| EcIndividual::new(j, TestResults { results: rs.iter().map(|x| Error(*x)).collect(), total_result: Error(*k) })).collect()
+    let g = genome_of(pop);
+    pop.iter().enumerate().map(|(j, (k, rs))| EcIndividual::new(g(j), TestResults { results: rs.iter().map(|x| Error(*x)).collect(), total_result: Error(*k) })).collect()
 }
 
 /// index of the returned reference inside the population slice (identity, not equality)
@@ -123,6 +125,26 @@ impl std::fmt::Display for LeafErr {
 }
 impl std::error::Error for LeafErr {}
 
+/// C16 "repeated / interleaved call histories on one operator value": on about half of the cases the
+/// operator value is used once before the compared call, on a throw-away clone of nothing the compared
+/// call reads (its own generator) — a stateless operator cannot notice, one that keeps hidden state between
+/// calls (a cached order, a lazily initialised table) then differs from the model.
+/// genomes of the individuals: distinct (the position) for most populations; for about a third all equal, and
+/// for some pairwise equal — the ordering of individuals must look at the results only, never at the genome
+pub fn genome_of(pop: &PopRaw) -> impl Fn(usize) -> usize {
+    let h: i64 = pop.iter().map(|(k, rs)| k.wrapping_mul(7).wrapping_add(rs.len() as i64)).sum::<i64>().wrapping_add(pop.len() as i64);
+    let mode = h.rem_euclid(6);
+    move |j| match mode { 0 | 1 => 0, 2 => j / 2, _ => j }
+}
+
+pub fn warm_up<P, S: Selector<P>>(s: &S, pop: &P, throwaway: &mut SplitMix) where P: ec_core::population::Population {
+    if throwaway.state & 8 == 0 {
+        let mut t = SplitMix::derive(throwaway.state, 77);
+        let _ = s.select(pop, &mut t);
+        let _ = s.select(pop, &mut t);
+    }
+}
+
 impl<R: Ord> Selector<Vec<Ind<R>>> for AnyLeaf {
     type Error = LeafErr;
     fn select<'pop, G: Rng + ?Sized>(&self, pop: &'pop Vec<Ind<R>>, rng: &mut G) -> Result<&'pop Ind<R>, LeafErr> {
@@ -132,7 +154,7 @@ impl<R: Ord> Selector<Vec<Ind<R>>> for AnyLeaf {
             Leaf::Worst => Worst.select(pop, rng).map_err(LeafErr::Empty),
             Leaf::Random => Random.select(pop, rng).map_err(LeafErr::Empty),
             Leaf::Tournament(k) => Tournament::new(NonZeroUsize::new(*k).expect("k>0")).select(pop, rng).map_err(LeafErr::Tournament),
-            Leaf::Lexicase(n) => Lexicase::new(*n).select(pop, rng).map_err(LeafErr::Lexicase),
+            Leaf::Lexicase(n) => { let l = Lexicase::new(*n); let mut w = SplitMix::new(*n as u64 ^ pop.len() as u64); warm_up(&l, pop, &mut w); l.select(pop, rng).map_err(LeafErr::Lexicase) }
             Leaf::Probe(i) => Probe(*i).select(pop, rng).map_err(LeafErr::Empty),
         }
     }
